@@ -508,7 +508,7 @@ theorem objectz_store_facts_expected : Generated.objectzStore = expectedObjStore
     defaults earlier executions wrote into a kept object leave no trace. -/
 theorem history_independent {Text : Type} (parse : Text → Option CQuery) (W : HStores) (st : HState) (calls : List (Call Text)) :
     history parse Generated.objectzPaging Generated.boltzPaging W st calls =
-      specHistory parse Generated.objectzPaging Generated.boltzPaging W st calls := by
+      objSpecHistory parse Generated.objectzPaging Generated.boltzPaging W st calls := by
   rw [objectz_paging_facts_expected, boltz_paging_facts_expected]
   exact history_eq_spec parse W calls st st (stateAgrees_refl st)
 
@@ -555,7 +555,7 @@ theorem history_objectz_eq_bolt {Text : Type} (parse : Text → Option CQuery) (
   | nil => rfl
   | cons c cs ih =>
     obtain ⟨hc, hrest⟩ := hg
-    simp only [List.map_cons, specHistory]
+    simp only [List.map_cons, objSpecHistory]
     rw [specStep_toBolt_state, ih _ hrest]
     congr 1
     cases c with
